@@ -23,7 +23,7 @@ Paths == << Path("$", <<Rec, Wild>>, <<>>), Path("$", <<Nm(ka), Wild>>, <<>>), P
             Path("$", <<Nm(kd2), Flt(Cmp(">", Cur(<<>>), Lit(N3)))>>, <<>>), Path("$", <<Rec, Flt(Exist(Cur(<<Nm(ke)>>)))>>, <<>>),
             Path("$", <<Nm(ka), Multi(<<Nm(kc), Nm(kb)>>)>>, <<>>), Path("$", <<Un(<<Sl(0, TRUE, 0, TRUE, -1, FALSE)>>)>>, <<>>),
             Path("$", <<Wild, Wild>>, <<>>), Path("$", <<Multi(<<Wild, Wild>>)>>, <<>>), Path("$", <<Rec, Un(<<Idx(-1)>>)>>, <<>>) >>
-Sentinels == <<Str(<<83, 49>>), Str(<<83, 50>>), Str(<<83, 51>>)>>
+Sentinels == [n \in 1..MaxOps |-> Str(<<83, 48 + n>>)]
 
 VARIABLES d, p, heap, ops
 vars == <<d, p, heap, ops>>
